@@ -171,7 +171,19 @@ def languages_index():
 
 
 def locale_date_order(lang, locale=None):
-    info = language_info(lang)
+    """the order a locale's users write numeric dates in: taken from the CLDR source the repository's generator reads
+    (dateparser_data/cldr_language_data/...json), NOT from the generated module the library loads - so that an edit of
+    the shipped data is judged against its source; languages without a CLDR source fall back to the module"""
+    import json
+    import os
+    src = repo_path("dateparser_data", "cldr_language_data", "date_translation_data", lang + ".json")
+    if os.path.exists(src):
+        key = "_cldr_" + lang
+        if key not in _LANG_CACHE:
+            _LANG_CACHE[key] = json.load(open(src, encoding="utf-8"))
+        info = _LANG_CACHE[key]
+    else:
+        info = language_info(lang)
     order = info.get("date_order")
     if locale and locale != lang:
         order = info.get("locale_specific", {}).get(locale, {}).get("date_order", order)
